@@ -1,4 +1,5 @@
 import Grass.Value
+import Grass.Generated.ModuleAliases
 /-
   C14 core — list, map and string built-ins over `Grass.Value.Value`.
 
@@ -17,7 +18,8 @@ import Grass.Value
     crates/compiler/src/value/number.rs              fuzzy_as_int :48, is_positive :106, assert_int :114, is_zero :203
     crates/compiler/src/value/sass_number.rs         assert_no_units :142, assert_int_with_name :179
 
-  A call is a list of positional argument values (named arguments are outside the model); the
+  A call is a list of positional argument values followed by named ones (`callN`; round 3: the
+  parameter names and the way `ArgumentResult` resolves them, ast/args.rs:165–335); the
   result is a value or an error class.  Strings are lists of code points.  Index arguments are
   finite numbers given by their exact rational value; `±Infinity`/`NaN` indices answer
   `unsupported`.
@@ -32,9 +34,15 @@ import Grass.Value
           rejected                                                      (list.rs:22, :77)
     K14d  `map.set` with fewer than three arguments did not fail: the key was read from the
           already consumed slot 0 and became `null`                   (map.rs:169–180)
-  Not settled by the documentation and therefore answered `unsupported`: `map.deep-remove`
-  whose last intermediate key is missing (the code inserts `key: null`), `string.split` with an
-  empty string or an empty separator.
+  Modelled as the code behaves (round 3; the documentation does not settle them): `map.deep-remove`
+  whose last intermediate key is missing inserts `key: null` (modules/map.rs:113–117, as dart-sass does),
+  `string.split` with an empty string gives `[""]`, with an empty separator `["", c₁, …, cₙ, ""]`
+  (`str::split("")`, string.rs:141–156).
+    K14e  (open) named arguments are not validated: a name that is no parameter is ignored by the
+          fixed-arity built-ins that have optional parameters, a parameter passed both by position and
+          by name silently takes the named value, `list.slash($elements: l)` is accepted
+          (ast/args.rs:214 get_err, :249 max_args; nothing looks at what is left in `named`).
+          Switch `namedStrict` (`true` = documented: such a call is an error).
 -/
 namespace Grass.Builtins
 open Grass.Value
@@ -44,6 +52,7 @@ inductive Err where
   | missingArg | tooManyArgs | notNumber | notString | notMap
   | indexZero | indexRange | notInt | hasUnits | badSeparator | limitRange
   | noKey | noValue | tooFewElems
+  | noNamedArg | dupArg
   | unsupported
   deriving DecidableEq, Repr, Inhabited
 
@@ -53,7 +62,8 @@ def Err.name : Err → String
   | .indexRange => "index-range" | .notInt => "not-int" | .hasUnits => "has-units"
   | .badSeparator => "bad-separator" | .limitRange => "limit-range" | .noKey => "no-key"
   | .noValue => "no-value"
-  | .tooFewElems => "too-few-elems" | .unsupported => "unsupported"
+  | .tooFewElems => "too-few-elems" | .noNamedArg => "no-named-arg" | .dupArg => "dup-arg"
+  | .unsupported => "unsupported"
 
 /-- One switch per deviation found; `true` = the documented behaviour (= /repo since the repairs). -/
 structure Sw where
@@ -65,16 +75,18 @@ structure Sw where
   rangeByInt : Bool
   /-- K14d -/
   setArity : Bool
+  /-- K14e (open): named arguments validated against the documented signature -/
+  namedStrict : Bool
   /-- the equality used for map keys and `index` (C09's switches) -/
   eq : Grass.Value.Sw
   deriving DecidableEq, Repr, Inhabited
 
-/-- /repo as it stands (K14a–K14d repaired) -/
-def Sw.now : Sw := ⟨true, true, true, true, Grass.Value.Sw.now⟩
+/-- /repo as it stands (K14a–K14d repaired, K14e open) -/
+def Sw.now : Sw := ⟨true, true, true, true, false, Grass.Value.Sw.now⟩
 /-- what the documentation demands -/
-def Sw.spec : Sw := ⟨true, true, true, true, Grass.Value.Sw.spec⟩
+def Sw.spec : Sw := ⟨true, true, true, true, true, Grass.Value.Sw.spec⟩
 /-- /repo before the repairs of K14a–K14d (and of C09's K1, K2, K4) -/
-def Sw.beforeFix : Sw := ⟨false, false, false, false, Grass.Value.Sw.beforeFix⟩
+def Sw.beforeFix : Sw := ⟨false, false, false, false, false, Grass.Value.Sw.beforeFix⟩
 
 abbrev R := Except Err Value
 
@@ -484,21 +496,16 @@ def dropKey (sw : Sw) (last : Value) (v : Value) : Value :=
   | some nm => if contains sw.eq nm last then .map (remove sw.eq nm last) else v
   | none => v
 
-/-- `modify_nested_map` with `add_nesting = false` (modules/map.rs:100–134); `none` = the last
-    intermediate key is missing (outside the model). -/
-def modNested (sw : Sw) (last : Value) : List Value → VPairs → Option VPairs
-  | [], m => some m
-  | [key], m =>
-    match get sw.eq m key with
-    | none => none
-    | some v => some (insert sw.eq m key (dropKey sw last v))
+/-- `modify_nested_map` with `add_nesting = false` (modules/map.rs:100–134).  At the last
+    intermediate key the closure is applied to the value found there or to `null`, and the result is
+    stored under the key even when the key was missing (:113–117). -/
+def modNested (sw : Sw) (last : Value) : List Value → VPairs → VPairs
+  | [], m => m
+  | [key], m => insert sw.eq m key (dropKey sw last ((get sw.eq m key).getD .null))
   | key :: rest, m =>
     match (get sw.eq m key).bind tryMap with
-    | none => some m
-    | some nm =>
-      match modNested sw last rest nm with
-      | none => none
-      | some r => some (insert sw.eq m key (.map r))
+    | none => m
+    | some nm => insert sw.eq m key (.map (modNested sw last rest nm))
 
 /-- `map.deep-remove` (modules/map.rs:57). -/
 def deepRemoveF (sw : Sw) : List Value → R
@@ -515,10 +522,7 @@ def deepRemoveF (sw : Sw) : List Value → R
       let last := all.getLast?.getD .null
       match all.dropLast with
       | [] => .ok (dropKey sw last (.map a))
-      | init =>
-        match modNested sw last init a with
-        | none => .error .unsupported
-        | some r => .ok (.map r)
+      | init => .ok (.map (modNested sw last init a))
 
 /-! ### strings -/
 
@@ -686,6 +690,22 @@ def splitAux (sep : List Char) : Nat → Nat → List Char → List Char → Lis
     if sep.isPrefixOf (c :: t) then acc.reverse :: splitAux sep lim (sep.length - 1) [] t
     else splitAux sep (lim + 1) 0 (c :: acc) t
 
+/-- `str::splitn(k + 1, "")` after the first (empty) piece: the empty pattern matches at every
+    code-point boundary, the end included; `k` = cuts left. -/
+def splitEmptyRest : Nat → List Char → List (List Char)
+  | _, [] => [[]]
+  | 0, c :: t => [c :: t]
+  | k + 1, c :: t => [c] :: splitEmptyRest k t
+
+/-- `str::splitn(lim + 1, "")`: `"" , c₁, …, cₙ, ""` while cuts remain, then the rest. -/
+def splitEmpty : Nat → List Char → List (List Char)
+  | 0, s => [s]
+  | k + 1, s => [] :: splitEmptyRest k s
+
+/-- `s1.splitn(lim + 1, sep)` (string.rs:143, :156) on code points -/
+def splitPieces (sep : List Char) (lim : Nat) (s : List Char) : List (List Char) :=
+  if sep = [] then splitEmpty lim s else splitAux sep lim 0 [] s
+
 /-- `$limit` of `string.split` (string.rs:141–156): `none` = no limit -/
 def limitArg : Option Value → Except Err (Option Nat)
   | none => .ok none
@@ -697,7 +717,7 @@ def limitArg : Option Value → Except Err (Option Nat)
   | some (.num _ _) => .error .unsupported
   | some _ => .error .notNumber
 
-/-- `string.split` (string.rs:128). -/
+/-- `string.split` (string.rs:128).  Without a limit there are at most `length + 1` cuts. -/
 def splitF : List Value → R
   | [] => .error .missingArg
   | [s] =>
@@ -715,9 +735,7 @@ def splitF : List Value → R
         match limitArg rest.head? with
         | .error e => .error e
         | .ok lim =>
-          if s = [] ∨ sep = [] then .error .unsupported
-          else
-            .ok (mkList ((splitAux sep (lim.getD s.length) 0 [] s).map (fun p => Value.str p true)) .comma true)
+          .ok (mkList ((splitPieces sep (lim.getD (s.length + 1)) s).map (fun p => Value.str p true)) .comma true)
 
 /-! ### dispatch -/
 
@@ -753,6 +771,225 @@ def call (sw : Sw) (f : String) (args : List Value) : Option R :=
   else if f == "to-lower-case" then some (lowerF args)
   else if f == "split" then some (splitF args)
   else none
+
+/-! ### named arguments (ast/args.rs:165–335)
+
+  `ArgumentResult` holds the positional values and the named ones (`$name: value`; positional
+  arguments come first in the source).  `get_err(i, name)` / `default_arg(i, name, d)` (:214, :273)
+  take the named value if there is one, else positional `i`; `len()` (:230) counts both;
+  `get_variadic` (:288) fails if a named argument is left and returns the positional values whose
+  index no `get_positional` touched. -/
+
+abbrev Named := List (String × Value)
+
+/-- `Identifier`: `_` and `-` are the same character in a name -/
+def normName (s : String) : String := s.map (fun c => if c = '_' then '-' else c)
+
+def Named.get (nm : Named) (n : String) : Option Value := (nm.find? (fun p => p.1 == n)).map (·.2)
+
+/-- the parameters a built-in fetches by `get_err`/`default_arg`, in positional order; `max` = the
+    bound of `max_args` (`none`: the function ends with `get_variadic`); `defaults` = what
+    `default_arg` supplies. -/
+structure Sig where
+  params : List String
+  max : Option Nat
+  defaults : List (Option Value)
+
+def autoV : Value := .str "auto".toList false
+
+/-- from the `get_err` / `default_arg` calls of builtin/functions/{list,map,string}.rs and modules/map.rs
+    (`map-merge`, `map-set`, `slash` compute positions from `len()` and are modelled apart) -/
+def sigTable : List (String × Sig) := [
+  ("length", ⟨["list"], some 1, [none]⟩),                                         -- list.rs:4–6
+  ("nth", ⟨["list", "n"], some 2, [none, none]⟩),                                 -- list.rs:12–16
+  ("set-nth", ⟨["list", "n", "value"], some 3, [none, none, none]⟩),              -- list.rs:54–88
+  ("append", ⟨["list", "val", "separator"], some 3, [none, none, some autoV]⟩),   -- list.rs:102–113
+  ("join", ⟨["list1", "list2", "separator", "bracketed"], some 4, [none, none, some autoV, some autoV]⟩), -- list.rs:147–197
+  ("zip", ⟨[], none, []⟩),                                                        -- list.rs:239
+  ("index", ⟨["list", "value"], some 2, [none, none]⟩),                           -- list.rs:228–230
+  ("list-separator", ⟨["list"], some 1, [none]⟩),                                 -- list.rs:46–48
+  ("is-bracketed", ⟨["list"], some 1, [none]⟩),                                   -- list.rs:217–218
+  ("map-get", ⟨["map", "key"], none, [none, none]⟩),                              -- map.rs:19–26
+  ("map-has-key", ⟨["map", "key"], none, [none, none]⟩),                          -- map.rs:44–51
+  ("map-keys", ⟨["map"], some 1, [none]⟩),                                        -- map.rs:75–78
+  ("map-values", ⟨["map"], some 1, [none]⟩),                                      -- map.rs:87–90
+  ("map-remove", ⟨["map"], none, [none]⟩),                                        -- map.rs:158–161
+  ("deep-merge", ⟨["map1", "map2"], some 2, [none, none]⟩),                       -- modules/map.rs:42–52
+  ("deep-remove", ⟨["map", "key"], none, [none, none]⟩),                          -- modules/map.rs:60–63
+  ("str-length", ⟨["string"], some 1, [none]⟩),                                   -- string.rs:27–29
+  ("str-slice", ⟨["string", "start-at", "end-at"], some 3, [none, none, some (.num (.fin (-1)) .none)]⟩), -- string.rs:61–92
+  ("str-index", ⟨["string", "substring"], some 2, [none, none]⟩),                 -- string.rs:166–174
+  ("str-insert", ⟨["string", "insert", "index"], some 3, [none, none, none]⟩),    -- string.rs:186–199
+  ("quote", ⟨["string"], some 1, [none]⟩),                                        -- string.rs:39–42
+  ("unquote", ⟨["string"], some 1, [none]⟩),                                      -- string.rs:50–53
+  ("to-upper-case", ⟨["string"], some 1, [none]⟩),                                -- string.rs:4–6
+  ("to-lower-case", ⟨["string"], some 1, [none]⟩),                                -- string.rs:15–18
+  ("split", ⟨["string", "separator", "limit"], some 3, [none, none, some .null]⟩)] -- string.rs:129–139
+
+def sigOf (f : String) : Option Sig := sigTable.lookup f
+
+/-- per parameter: the named value, else the positional one at its index -/
+def slotsOf (nm : Named) : List String → List Value → List (Option Value)
+  | [], _ => []
+  | p :: ps, [] => nm.get p :: slotsOf nm ps []
+  | p :: ps, v :: pos => (match nm.get p with | some x => some x | none => some v) :: slotsOf nm ps pos
+
+/-- the positional call the slots amount to: an absent optional parameter that is followed by a
+    present one gets its default (`default_arg`); at the first other absent parameter the list
+    ends (the function fails there with "Missing argument", or stops fetching). -/
+def fillSlots : List (Option Value) → List (Option Value) → List Value
+  | [], _ => []
+  | some v :: rest, ds => v :: fillSlots rest ds.tail
+  | none :: rest, some d :: ds => if rest.any Option.isSome then d :: fillSlots rest ds else []
+  | none :: _, _ => []
+
+/-- what `get_variadic` returns: the positional values no `get_positional` touched — a fixed
+    parameter given by name leaves the positional value at its index in place -/
+def restOf (nm : Named) : List String → List Value → List Value
+  | [], pos => pos
+  | _ :: _, [] => []
+  | p :: ps, v :: pos => if (nm.get p).isSome then v :: restOf nm ps pos else restOf nm ps pos
+
+/-- a named argument that no `get_err`/`default_arg` of the function asks for -/
+def leftover (params : List String) (nm : Named) : Bool := nm.any (fun p => !params.contains p.1)
+
+/-- `list.slash` (modules/list.rs:9–27) with named arguments -/
+def slashN (pos : List Value) (nm : Named) : R :=
+  let len := pos.length + nm.length
+  if len < 1 then .error .missingArg
+  else if len = 1 then
+    match (match nm.get "elements" with | some x => some x | none => pos.head?) with
+    | some l => slashF [l]
+    | none => .error .missingArg
+  else if nm.isEmpty then slashF pos else .error .noNamedArg
+
+/-- `map-merge` (map.rs:98–155) with named arguments: `$map2` is the named value or the positional one
+    at index `len() - 1` (in range only when nothing is named); the keys are the untouched positionals. -/
+def mapMergeN (sw : Sw) (pos : List Value) (nm : Named) : R :=
+  if nm.isEmpty then mapMergeF sw pos
+  else if pos.length + nm.length = 1 then .error .noKey
+  else
+    match (match nm.get "map1" with | some x => some x | none => pos.head?) with
+    | none => .error .missingArg
+    | some m1 =>
+      match assertMap m1 with
+      | .error e => .error e
+      | .ok a =>
+        match nm.get "map2" with
+        | none => .error .missingArg
+        | some m2 =>
+          match assertMap m2 with
+          | .error e => .error e
+          | .ok b =>
+            if leftover ["map1", "map2"] nm then .error .noNamedArg
+            else
+              let ks := if (nm.get "map1").isSome then pos else pos.drop 1
+              .ok (.map (mergeNested sw ks a b))
+
+/-- `map.set` (map.rs:168–240) with named arguments: `key_position = max(len − 2, 1)`,
+    `value_position = max(len − 1, 2)`; with something named the value position is never in range and
+    the key position only when exactly one argument is named (then it is the last positional, if
+    there are two or more); the arity messages are skipped (`num_rest_args = None`). -/
+def mapSetN (sw : Sw) (pos : List Value) (nm : Named) : R :=
+  if nm.isEmpty then mapSetF sw pos
+  else
+    match (match nm.get "map" with | some x => some x | none => pos.head?) with
+    | none => .error .missingArg
+    | some m =>
+      match assertMap m with
+      | .error e => .error e
+      | .ok a =>
+        let keyPos : Option Value := if nm.length = 1 ∧ 2 ≤ pos.length then pos.getLast? else none
+        match (match nm.get "key" with | some x => some x | none => keyPos) with
+        | none => .error .missingArg
+        | some key =>
+          match nm.get "value" with
+          | none => .error .missingArg
+          | some val =>
+            if leftover ["map", "key", "value"] nm then .error .noNamedArg
+            else
+              let p1 := if (nm.get "map").isSome then pos else pos.drop 1
+              let ks := if (nm.get "key").isSome then p1 else p1.dropLast
+              .ok (.map (setNested sw ks a key val))
+
+/-- the documented parameter names a call may use by name -/
+def docParams (f : String) : List String :=
+  match sigOf f with
+  | some sg => sg.params
+  | none => if f == "map-merge" then ["map1", "map2"] else if f == "map-set" then ["map", "key", "value"] else []
+
+/-- every name is a documented parameter of `f` -/
+def namesKnown (f : String) (nm : Named) : Bool := nm.all (fun p => (docParams f).contains p.1)
+
+def noDup : List String → Bool
+  | [] => true
+  | a :: t => !t.contains a && noDup t
+
+/-- no name twice, and none names a parameter that is also given by position -/
+def namesFresh (f : String) (npos : Nat) (nm : Named) : Bool :=
+  nm.all (fun p => !((docParams f).take npos).contains p.1) && noDup (nm.map (·.1))
+
+/-- a call as the code resolves it -/
+def callCode (sw : Sw) (f : String) (pos : List Value) (nm : Named) : Option R :=
+  if f == "slash" then some (slashN pos nm)
+  else if f == "map-merge" then some (mapMergeN sw pos nm)
+  else if f == "map-set" then some (mapSetN sw pos nm)
+  else
+    match sigOf f with
+    | none => none
+    | some sg =>
+      match sg.max with
+      | some mx =>
+        if mx < pos.length + nm.length then some (.error .tooManyArgs)
+        else call sw f (fillSlots (slotsOf nm sg.params pos) sg.defaults)
+      | none =>
+        let fx := fillSlots (slotsOf nm sg.params pos) []
+        let bound := if fx.length = sg.params.length then fx ++ restOf nm sg.params pos else fx
+        match call sw f bound with
+        | some (.ok v) => if leftover sg.params nm then some (.error .noNamedArg) else some (.ok v)
+        | r => r
+
+/-- a call with positional and named arguments.  Documented (`namedStrict`): a name that is no
+    parameter, or that names a parameter also given by position, is an error; the nested forms of
+    `map-merge` / `map.set` with named arguments are not settled (`unsupported`). -/
+def callN (sw : Sw) (f : String) (pos : List Value) (nm : Named) : Option R :=
+  if nm.isEmpty then call sw f pos
+  else if sw.namedStrict then
+    if !namesKnown f nm then some (.error .noNamedArg)
+    else if (f == "map-merge" ∧ pos.length + nm.length ≠ 2) ∨ (f == "map-set" ∧ pos.length + nm.length ≠ 3) then
+      some (.error .unsupported)
+    else if !namesFresh f pos.length nm then some (.error .dupArg)
+    else callCode sw f pos nm
+  else callCode sw f pos nm
+
+/-! ### module members and global aliases (builtin/functions/*.rs `declare`, builtin/modules/*.rs `declare`;
+    the two tables are regenerated from the Rust source by tools/translate_module_aliases.py) -/
+
+/-- the model function (name understood by `call`) of an implementing Rust fn -/
+def modelOfRust (path : String) : Option String :=
+  [("list::length", "length"), ("list::nth", "nth"), ("list::set_nth", "set-nth"), ("list::append", "append"),
+   ("list::join", "join"), ("list::zip", "zip"), ("list::index", "index"), ("list::list_separator", "list-separator"),
+   ("list::is_bracketed", "is-bracketed"), ("local:list::slash", "slash"),
+   ("map::map_get", "map-get"), ("map::map_has_key", "map-has-key"), ("map::map_keys", "map-keys"),
+   ("map::map_values", "map-values"), ("map::map_merge", "map-merge"), ("map::map_remove", "map-remove"),
+   ("map::map_set", "map-set"), ("local:map::deep_merge", "deep-merge"), ("local:map::deep_remove", "deep-remove"),
+   ("string::str_length", "str-length"), ("string::str_slice", "str-slice"), ("string::str_index", "str-index"),
+   ("string::str_insert", "str-insert"), ("string::quote", "quote"), ("string::unquote", "unquote"),
+   ("string::to_upper_case", "to-upper-case"), ("string::to_lower_case", "to-lower-case"),
+   ("string::str_split", "split")].lookup path
+
+def rustOfGlobal (g : String) : Option String := Grass.Generated.globalTable.lookup g
+
+def rustOfMember (mod mem : String) : Option String :=
+  (Grass.Generated.moduleTable.find? (fun e => e.1 == mod && e.2.1 == mem)).map (·.2.2)
+
+/-- a call through a global function name -/
+def callGlobal (sw : Sw) (g : String) (pos : List Value) (nm : Named) : Option R :=
+  ((rustOfGlobal g).bind modelOfRust).bind (fun f => callN sw f pos nm)
+
+/-- a call through a member of a built-in module -/
+def callMember (sw : Sw) (mod mem : String) (pos : List Value) (nm : Named) : Option R :=
+  ((rustOfMember mod mem).bind modelOfRust).bind (fun f => callN sw f pos nm)
 
 /-! ### the per-input property predicates (P̂), used by the theorems of GrassProofs/C14.lean on the
     model's answers and by the driver on the implementation's own answers -/
@@ -913,12 +1150,51 @@ def lawDeepMergeGet (hasB getA getB sub getR : Value) : Bool :=
     | _, _ => sameV getR getB
   | _ => false
 
+/-- `index(l, v)`: `null` ⇒ no element of `l` is `== v`; `i` ⇒ the `i`-th element is `== v` and none
+    before it is -/
+def lawIndexFirst (sw : Sw) (l v idx : Value) : Bool :=
+  match idx with
+  | .null => (elems l).all (fun e => !veq sw.eq e v)
+  | i =>
+    match natOf i with
+    | some (n + 1) =>
+      (match (elems l)[n]? with | some e => veq sw.eq e v | none => false) &&
+        (List.range n).all (fun j => match (elems l)[j]? with | some e => !veq sw.eq e v | none => true)
+    | _ => false
+
+def strsOf : List Value → Option (List (List Char))
+  | [] => some []
+  | .str s true :: t => (strsOf t).map (s :: ·)
+  | _ => none
+
+/-- pieces joined with the separator -/
+def joinWith (sep : List Char) : List (List Char) → List Char
+  | [] => []
+  | [p] => p
+  | p :: q :: t => p ++ sep ++ joinWith sep (q :: t)
+
+/-- `string.split(s, sep[, limit])`: a bracketed comma list of quoted strings which, joined with `sep`,
+    give `s` back; at most `limit + 1` of them -/
+def lawSplitJoin (s sep : Value) (limit : Option Nat) (r : Value) : Bool :=
+  match strOf s, strOf sep, r with
+  | some (s, _), some (sep, _), .list es .comma true =>
+    match strsOf es.toList with
+    | some ps =>
+      decide (joinWith sep ps = s) && decide (1 ≤ ps.length) &&
+        (match limit with | some k => decide (ps.length ≤ k + 1) | none => true)
+    | none => false
+  | _, _, _ => false
+
+/-- `map.deep-remove(m, k₁ … kₙ)`: the path reads `null` afterwards, any other probed path reads as before -/
+def lawDeepRemove (getRemoved before after : Value) : Bool := sameV getRemoved .null && sameV before after
+
 /-! ### driver -/
 open Grass.Proto
 
 def parseSw? (s : String) : Option Sw :=
   if s == "now" then some .now else if s == "spec" then some .spec
-  else if s == "beforefix" then some .beforeFix else none
+  else if s == "beforefix" then some .beforeFix
+  else if s == "strict" then some { Sw.now with namedStrict := true } else none
 
 def errStr (e : Err) : String :=
   match e with
@@ -934,6 +1210,14 @@ def lawAnswer (b : Bool) : String := if b then "ok holds" else "ok fails"
 def optSep? (s : String) : Option (Option Sep) :=
   if s == "none" then some none else (parseSep? s).map some
 
+def namedOf : List (Value × Value) → Option Named
+  | [] => some []
+  | (.str n false, v) :: t => (namedOf t).map ((normName (String.ofList n), v) :: ·)
+  | _ => none
+
+def optNat? (s : String) : Option (Option Nat) :=
+  if s == "none" then some none else s.toNat?.map some
+
 def handle : List String → String
   -- call <now|spec|beforefix> <fname> <k> <k values> → ok <value> | err <class> | unsupported
   | "call" :: af :: f :: k :: r =>
@@ -946,6 +1230,30 @@ def handle : List String → String
         | none => "bad-op"
       | none => "bad-op"
     | _, _ => "bad-op"
+  -- callN <variant> <fname> <k> <k values> <map: name ↦ value> → as `call`, with named arguments
+  | "callN" :: af :: f :: k :: r =>
+    match parseSw? af, k.toNat? with
+    | some sw, some k =>
+      match parseValues (k + 1) r with
+      | some vs =>
+        match vs.getLast? with
+        | some (.map ps) =>
+          match namedOf ps.toList with
+          | some nm =>
+            match callN sw f (vs.take k) nm with
+            | some res => answer res
+            | none => "bad-op"
+          | none => "bad-op"
+        | _ => "bad-op"
+      | none => "bad-op"
+    | _, _ => "bad-op"
+  -- params <fname> → ok <documented parameter names, positional order>
+  | ["params", f] => "ok" ++ String.join ((docParams f).map (" " ++ ·))
+  -- resolve global <name> | resolve member <module> <name> → ok <model function> | none
+  | ["resolve", "global", g] =>
+    match (rustOfGlobal g).bind modelOfRust with | some f => "ok " ++ f | none => "none"
+  | ["resolve", "member", mod, mem] =>
+    match (rustOfMember mod mem).bind modelOfRust with | some f => "ok " ++ f | none => "none"
   -- eq <variant> A B → ok <A == B> <B == A>   (`Grass.Value.veq` under the variant's equality)
   | "eq" :: af :: r =>
     match parseSw? af, parseValues 2 r with
@@ -960,6 +1268,10 @@ def handle : List String → String
     match a.toNat?, b.toNat?, parseValues 1 r with
     | some a, some b, some [v] => lawAnswer (lawLengthSlice a b v)
     | _, _, _ => "bad-op"
+  | "law" :: "split_join" :: lim :: r =>
+    match optNat? lim, parseValues 3 r with
+    | some lim, some [s, sep, v] => lawAnswer (lawSplitJoin s sep lim v)
+    | _, _ => "bad-op"
   | "law" :: "zip_length" :: k :: r =>
     match k.toNat? with
     | some k =>
@@ -991,6 +1303,8 @@ def handle : List String → String
         | "set_other_path", [a, b] => lawAnswer (lawSetOtherPath a b)
         | "remove_get", [a, b] => lawAnswer (lawRemoveGet a b)
         | "deep_merge_get", [h, a, b, s, g] => lawAnswer (lawDeepMergeGet h a b s g)
+        | "index_first", [l, v, i] => lawAnswer (lawIndexFirst Sw.now l v i)
+        | "deep_remove", [a, b, c] => lawAnswer (lawDeepRemove a b c)
         | _, _ => "bad-op"
       | none => "bad-op"
     | none => "bad-op"
